@@ -138,12 +138,52 @@ func init() {
 				s.UnevaluatedItems = extra
 			}
 		}
+		// one time in four the input is a DAG: an object of the tree (never an ancestor of the
+		// new position, so no cycle) is referenced from a second position
+		shared := 0
+		if r.intn(4) == 0 {
+			sub := map[*js.Schema]bool{}
+			allSchemaPtrs(s, sub)
+			var leaves []*js.Schema
+			for p := range sub {
+				inner := map[*js.Schema]bool{}
+				allSchemaPtrs(p, inner)
+				if p != s && len(inner) <= 2 {
+					leaves = append(leaves, p)
+				}
+			}
+			if len(leaves) > 0 {
+				// deterministic choice: order by marshalled form
+				best := leaves[0]
+				bb, _ := json.Marshal(best)
+				for _, l := range leaves[1:] {
+					lb, _ := json.Marshal(l)
+					if bytes.Compare(lb, bb) < 0 {
+						best, bb = l, lb
+					}
+				}
+				switch r.intn(4) {
+				case 0:
+					s.AllOf = append(s.AllOf, best)
+				case 1:
+					s.Not = best
+				case 2:
+					if s.PatternProperties == nil {
+						s.PatternProperties = map[string]*js.Schema{}
+					}
+					s.PatternProperties["^sh"] = best
+				default:
+					s.Then = best
+				}
+				shared = 1
+			}
+		}
 		ptrs := map[*js.Schema]bool{}
 		allSchemaPtrs(s, ptrs)
 		nt := 0
 		if len(ptrs) >= 3 {
 			nt = 1
 		}
-		return &CloneCase{ID: id, S: s, Note: fmt.Sprintf("nontrivial=%d shape=n%d.%s", nt, len(ptrs), shapeOfSchema(s))}
+		return &CloneCase{ID: id, S: s, Note: fmt.Sprintf("nontrivial=%d shared=%d shape=n%d.%s", nt, shared, len(ptrs), shapeOfSchema(s))}
 	}
 }
